@@ -1,0 +1,47 @@
+//go:build verif
+// +build verif
+
+package criteria_ordering
+
+// Contracts for gocv (comment-only; compiled out unless the tag "verif" is set, and empty then).
+
+//@ ifacemethod CriteriaOrderingResolver.OrderCriteria
+//@   requires model.distinctCriteria(params.Criteria)
+//@   ensures result != nil && fresh(result) && fresh(*result) && model.rearranged(*result, params.Criteria)
+
+//@ func (*WeakestCriteriaOrderingResolver).OrderCriteria
+//@   property C15 C16
+//@   requires model.distinctCriteria(params.Criteria)
+//@   ensures [permutation] result != nil && fresh(result) && fresh(*result) && model.rearranged(*result, params.Criteria)
+//@   ensures [weakest_first] forall i int, j int :: 0 <= i && i < j && j < len(*result) ==> model.imp(*listener, params, (*result)[i].Id) <= model.imp(*listener, params, (*result)[j].Id)
+
+//@ func (*StrongestCriteriaOrderingResolver).OrderCriteria
+//@   property C15 C16
+//@   requires model.distinctCriteria(params.Criteria)
+//@   ensures [permutation] result != nil && fresh(result) && fresh(*result) && model.rearranged(*result, params.Criteria)
+//@   ensures [strongest_first] forall i int, j int :: 0 <= i && i < j && j < len(*result) ==> model.imp(*listener, params, (*result)[i].Id) >= model.imp(*listener, params, (*result)[j].Id)
+//@   loop 1 invariant [ctx] fresh(descending) && len(descending) == totalCount && totalCount == len(*ascending) && model.rearranged(*ascending, params.Criteria)
+//@   loop 1 invariant [reversed] forall k int :: totalCount - iter <= k && k < totalCount ==> descending[k] == (*ascending)[totalCount - 1 - k]
+//@   loop 1 invariant [asc_sorted] forall i int, j int :: 0 <= i && i < j && j < len(*ascending) ==> (*ascending)[i].Id != (*ascending)[j].Id && model.imp(*listener, params, (*ascending)[i].Id) <= model.imp(*listener, params, (*ascending)[j].Id)
+
+//@ func (*StrongestByProbabilityCriteriaOrderingResolver).OrderCriteria
+//@   property C15 C16
+//@   requires model.distinctCriteria(params.Criteria)
+//@   ensures [permutation] result != nil && fresh(result) && fresh(*result) && model.rearranged(*result, params.Criteria)
+//@   loop 1 invariant [ctx] fresh(result) && len(result) == criteriaCount && criteriaCount == len(*criteria) && model.rearranged(*criteria, params.Criteria)
+//@   loop 1 invariant [reversed] forall k int :: criteriaCount - iter <= k && k < criteriaCount ==> result[k] == (*criteria)[criteriaCount - 1 - k]
+
+//@ func shuffleCriteria
+//@   property C15 C16
+//@   fnparam generator ensures 0.0 <= result && result < 1.0
+//@   requires model.distinctCriteria(*criteria)
+//@   ensures [permutation] result != nil && fresh(result) && fresh(*result) && model.rearranged(*result, *criteria)
+//@   loop 1 invariant [ctx] fresh(copied) && len(copied) == criteriaCount && criteriaCount == len(*criteria) && i < criteriaCount
+//@   loop 1 invariant [perm] model.rearranged(copied, *criteria)
+
+// The weakest-by-probability resolver removes elements in place inside a labelled search loop; its permutation
+// property is assumed here (listed as a trusted contract in the evidence).
+//@ func (*WeakestByProbabilityCriteriaOrderingResolver).OrderCriteria
+//@   trusted
+//@   requires model.distinctCriteria(params.Criteria)
+//@   ensures result != nil && fresh(result) && fresh(*result) && model.rearranged(*result, params.Criteria)
